@@ -22,6 +22,16 @@ Check (C14_transport :
      forall arg stdin, session (option_map (map f) arg) (map f stdin) = session arg stdin)).
 Check (C14_no_effect : forall ls1 l e ls2, try_from l = Err e ->
   commands_of (events (ls1 ++ l :: ls2)) = commands_of (events (ls1 ++ ls2))).
+Check (C14_register : forall s r, register_try_parse s = Ok (Some r) <-> RegSyn s r).
+Check (C14_pc_offset : forall s v, pcoffset_try_parse s = Ok (Some v) <-> PcOffSyn s v).
+Check (C14_label : forall s name off, label_try_parse s = Ok (Some (name, off)) <-> LabelSyn s name off).
+Check (C14_value : forall s v,
+  (check_naive_type [NInteger] s = Ok tt /\
+   exists x, parse_integer s false = Ok (Some x) /\ as_u16_cast x = Ok v) <-> ValueSyn s v).
+Check (C14_memory_location : forall s m,
+  (check_naive_type [NInteger; NLabel; NPCOffset] s = Ok tt /\
+   memory_location_try_parse s = Ok (Some m)) <-> MemLocSyn s m).
+Check (C14_location : forall s l, location_try_parse s = Ok (Some l) <-> LocSyn s l).
 Print Assumptions C14_int_sound.
 Print Assumptions C14_int_complete.
 Print Assumptions C14_unambiguous.
@@ -29,3 +39,9 @@ Print Assumptions C14_total.
 Print Assumptions C14_session_total.
 Print Assumptions C14_transport.
 Print Assumptions C14_no_effect.
+Print Assumptions C14_register.
+Print Assumptions C14_pc_offset.
+Print Assumptions C14_label.
+Print Assumptions C14_value.
+Print Assumptions C14_memory_location.
+Print Assumptions C14_location.
